@@ -252,12 +252,13 @@ pub fn run_with(p: &Program, mode: Mode, limits: Limits, check_lifecycle: bool) 
 
 /// Run and also return the final user states (C10, C22): the query is assembled with an
 /// extra fngoal after `reify` that copies the user state into a side table.
-pub fn run_collect_user(p: &Program, mode: Mode, limits: Limits, check_lifecycle: bool) -> (Outcome, Vec<(VUser, usize)>) {
+pub fn run_collect_user(p: &Program, mode: Mode, limits: Limits, check_lifecycle: bool, check_ext_union: bool) -> (Outcome, Vec<(VUser, usize)>) {
     use proto_vulcan::operator::fngoal::FnGoal;
     use proto_vulcan::stream::Stream;
     use std::cell::RefCell;
     let ctx = Rc::new(RunCtx::default());
     ctx.check_lifecycle.set(check_lifecycle);
+    ctx.check_ext_union.set(check_ext_union);
     let side: Rc<RefCell<Vec<(VUser, usize)>>> = Rc::new(RefCell::new(vec![]));
     let mut answers = vec![];
     let mut metas = vec![];
@@ -281,11 +282,33 @@ pub fn run_collect_user(p: &Program, mode: Mode, limits: Limits, check_lifecycle
             Stream::unit(Box::new(state))
         }))
         .cast_into();
+        let pre: Goal<U, E> = FnGoal::new::<Goal<U, E>>(Box::new(move |solver, state| {
+            let ctx = solver.context();
+            if ctx.check_ext_union.get() {
+                let n = state.smap_ref().len() as i64;
+                if state.user_state.ext_bindings != n {
+                    ctx.lifecycle.borrow_mut().push(format!(
+                        "at the end of the body: process_extension logged {} bindings in {} calls but the substitution has {}",
+                        state.user_state.ext_bindings, state.user_state.ext_calls, n
+                    ));
+                }
+            }
+            if ctx.check_lifecycle.get() {
+                let stored = state.cstore_ref().iter().count();
+                let (w, t) = (state.user_state.with, state.user_state.take);
+                if w - t != stored as i64 {
+                    ctx.lifecycle.borrow_mut().push(format!("at the end of the body: with_constraint={} take_constraint={} stored={}", w, t, stored));
+                }
+            }
+            Stream::unit(Box::new(state))
+        }))
+        .cast_into();
         let goal: Goal<U, E> = Fresh::new(
             vec![q.clone()],
             GoalCast::cast_into(InferredConj::from_array(&[
                 GoalCast::cast_into(proto_vulcan::relation::eq::eq(q.clone(), LTerm::from_array(&qvars))),
                 Conj::from_array(&body_goals),
+                pre,
                 proto_vulcan::state::reify(q.clone()),
                 tail,
             ])),
